@@ -30,6 +30,8 @@ ASSUMPTIONS = ["c06_spec.sols is the documented meaning of a pattern (docs/tutor
                "as RewriteRuleSet.apply_to_model does before matching",
                "points where documentation and a plausible reading differ are three-valued (counted as 'maybe')"]
 
+MIN_HOSTS = 40   # hosts of the item tried as alternative witnesses while minimising a violating pattern
+
 # pools: (exact number of skeleton nodes, deviation bound)
 TIERS = {
     "quick": {"pairs": [((1, 2), [(1, 1), (2, 1), (3, 0)]),
@@ -382,8 +384,20 @@ def verdicts(pat, impl, host, root):
     return out
 
 
-def minimise(pat, host, root, remove, kind, err=None):
-    """Greedy: apply a simplification of the pattern while the same kind of disagreement persists."""
+def minimise(pat, host, root, remove, kind, err=None, others=()):
+    """Greedy: apply a simplification of the pattern while the same kind of disagreement persists - on the
+    witnessing host or, failing that, on one of the other hosts of the item (any root).  The finding key is
+    built from the features of the result, so incidental features of the first witness do not end up in it."""
+    witness = [host]
+
+    def fails_on(p, impl, h):
+        rop = G.root_op(p)
+        try:
+            return any(verdicts(p, impl, h, r)[1 if remove else 0][2] == kind
+                       for r in range(len(h.fh.nodes)) if h.fh.nodes[r][1] == rop)
+        except Exception:
+            return False
+
     def fails(p):
         if not G.reachable_ok(p):
             return False
@@ -392,12 +406,13 @@ def minimise(pat, host, root, remove, kind, err=None):
             return kind == "error" and err is not None and impl.error.startswith(err)
         if err is not None:
             return False
-        try:
-            rop = G.root_op(p)
-            return any(verdicts(p, impl, host, r)[1 if remove else 0][2] == kind
-                       for r in range(len(host.fh.nodes)) if host.fh.nodes[r][1] == rop)
-        except Exception:
-            return False
+        if fails_on(p, impl, witness[0]):
+            return True
+        for h in others[:MIN_HOSTS]:
+            if h is not witness[0] and fails_on(p, impl, h):
+                witness[0] = h
+                return True
+        return False
     cur = pat
     for _ in range(40):
         for cand in _simplifications(cur):
@@ -417,6 +432,7 @@ def execute(item):
         h = _Host(_host_from(hk, c))
         h.nodes_by_idx = list(h.graph)
         hosts.append((c, h))
+    hostlist = [h for _, h in hosts]
     counts = {"extra_evaluations": 0, "pairs": 0, "spec_evaluations": 0}
     outcomes = {}
     viols = {}
@@ -452,7 +468,7 @@ def execute(item):
                             feats, small_s = detail["label"], None
                         else:
                             if mk not in memo:
-                                small = minimise(pat, host, root, remove, kind)
+                                small = minimise(pat, host, root, remove, kind, others=hostlist)
                                 memo[mk] = (",".join(G.features(small)), G.show_pattern(small))
                             feats, small_s = memo[mk]
                         key = f"C06|{kind}|{feats}"
